@@ -56,7 +56,7 @@ func genC19(t *core.Tape, tier string) *Scenario {
 		}
 		stdPrograms(t, p)
 		if t.Bool(3, 5, "panics") {
-			p.HPanic = &PanicPlan{Kind: t.Choose(6, "panic.kind"), Text: "boom " + string(t.Bytes(3, 1, "ptext"))}
+			p.HPanic = &PanicPlan{Kind: t.Choose(10, "panic.kind"), Text: "boom " + string(t.Bytes(3, 1, "ptext"))}
 			at := t.Choose(len(p.HProg)+1, "panic.at")
 			prog := append([]HOp(nil), p.HProg[:at]...)
 			if t.Bool(1, 4, "panic.after.ctx.done") {
@@ -66,6 +66,12 @@ func genC19(t *core.Tape, tier string) *Scenario {
 				p.CancelTask = true
 				p.panicAfterCtx = true
 				sc.Notes["panic_after_context_done"]++
+			}
+			if p.Kind == KUnary && t.Bool(1, 3, "forward.then.panic") {
+				// a gateway handler: it passes the request object it received to a
+				// downstream client, then panics
+				prog = append(prog, HOp{Op: "forward"})
+				sc.Notes["forwarded_then_panicked"]++
 			}
 			prog = append(prog, HOp{Op: "panic"})
 			p.HProg = prog
@@ -170,8 +176,8 @@ func checkC19(w *World, st core.Status, r *RunResult) []Violation {
 		case p.HPanic.Kind == 0:
 			_, isNilErr := got.(*runtime.PanicNilError)
 			ok = got == nil || isNilErr
-		case p.HPanic.Kind == 1 || p.HPanic.Kind == 5:
-			ok = got == want // same error value
+		case p.HPanic.Kind == 1 || p.HPanic.Kind == 5 || p.HPanic.Kind == 9:
+			ok = got == want // same error value / same pointer
 		default:
 			ok = reflect.DeepEqual(got, want)
 		}
